@@ -108,10 +108,12 @@ Print Assumptions C16_compile_correct_straightline.
    (step ranges without a loop variable anywhere, and — at TOP LEVEL only —
    `for i := range …` WITH a loop variable, which the compiler makes a global:
    the semantics assigns none to i, then the index in every round; a zero step
-   is a run-time error, so the semantics is undefined there) and `break`
-   (inside a loop only: nb_stmt), arbitrarily nested, all expressions in efrag
-   (_partial: no loop variables inside blocks, no ranges over strings / arrays /
-   maps, no block-local declarations, no maps / slices / element stores).  The boolean of a result of exec_l says that a break is
+   is a run-time error, so the semantics is undefined there; likewise
+   `for x := range iterable` over the elements of an array, the characters of
+   a string or the keys of a map, counted like the VM with a number starting
+   at 0) and `break` (inside a loop only: nb_stmt), arbitrarily nested, all expressions in efrag
+   (_partial: no loop variables inside blocks, no iterable ranges without loop
+   variable, no block-local declarations, no maps / slices / element stores).  The boolean of a result of exec_l says that a break is
    under way; the innermost loop ends it.  The VM keeps the state of a range
    loop (index, step, stop) on the operand stack: the simulation carries the
    stack `base` below the statement, and OpDrop removes the state at the exit
@@ -438,6 +440,34 @@ Example C16_ex_arr_defined :
   | COk st => match vm_run 4000 (program_of (bytecode_of st)) (vm_init (program_of (bytecode_of st))) with
               | FHalted s => nth_error (globals s) 1 = Some (VNum (float_of_Z 50)) /\ nth_error (globals s) 3 = Some (VStr [101%N]) /\
                              nth_error (globals s) 5 = Some (VNum (float_of_Z 2))
+              | _ => False
+              end
+  | CErr _ => False
+  end.
+Proof. vm_compute. repeat split; try reflexivity. discriminate. Qed.
+
+(* t := 0; w := ""
+   for x := range [3 4 5]: t = t + x end
+   for c := range "ab": w = c + w end        -- t = 12, w = "ba", x = 5, c = "b" *)
+Definition ex_foriter : slist :=
+  let num k := ENum (float_of_Z k) in
+  SCons (SDecl (s_ "t") (num 0%Z))
+ (SCons (SDecl (s_ "w") (EStr (s_ "")))
+ (SCons (SForIter (Some (s_ "x")) TArr (EArr (ECons (num 3%Z) (ECons (num 4%Z) (ECons (num 5%Z) ENil))))
+          (SCons (SAssign (EVar (s_ "t")) (EBin BPlus TNum TNum (EVar (s_ "t")) (EVar (s_ "x")))) SNil))
+ (SCons (SForIter (Some (s_ "c")) TStr (EStr (s_ "ab"))
+          (SCons (SAssign (EVar (s_ "w")) (EBin BPlus TStr TStr (EVar (s_ "c")) (EVar (s_ "w")))) SNil)) SNil))).
+
+Example C16_ex_foriter_defined :
+  psfrag ex_foriter = true /\ (ldepth ex_foriter <= Gen.Opcodes.StackSize)%N /\
+  match exec_l 60 ex_foriter (fun _ => None) with
+  | Some (env, false) => env (s_ "t") = Some (VNum (float_of_Z 12)) /\ env (s_ "w") = Some (VStr [98%N; 97%N]) /\
+                         env (s_ "x") = Some (VNum (float_of_Z 5))
+  | _ => False
+  end /\
+  match compile ex_foriter with
+  | COk st => match vm_run 4000 (program_of (bytecode_of st)) (vm_init (program_of (bytecode_of st))) with
+              | FHalted s => globals s = [VNum (float_of_Z 12); VStr [98%N; 97%N]; VNum (float_of_Z 5); VStr [98%N]] /\ ostack s = []
               | _ => False
               end
   | CErr _ => False
